@@ -267,7 +267,7 @@ func TestCheck(t *testing.T) {
 			mk(scen{name: "w-switch-w-walsync-format", steps: []step{W(10), S1, W(11)}, wsync: true}, 0, 1, 1),
 			mk(scen{name: "no-switch-2w", steps: []step{W(10), W(11)}}, 2, 3, 1),
 			mk(scen{name: "2w-wait-acks-then-close", steps: []step{W(10), W(11), {kind: "wait"}}}, 2, 3, 2),
-			mk(scen{name: "w-switch-w-wait-acks", steps: []step{W(10), S1, W(11), {kind: "wait"}}}, 1, 1, 4),
+			mk(scen{name: "w-switch-w-wait-acks", steps: []step{W(10), S1, W(11), {kind: "wait"}}}, 0, 1, 2),
 		}
 		d1x.Run(t, c, sc)
 	})
